@@ -2,18 +2,20 @@
 component pairs _S/_Sinv (8 boxes), _IP/_FP, _L/_Linv are mutual inverses on their whole domain; so are
 crysp.utils.operators.rol/ror for every width and amount.
 
-The predicate is the round trip itself evaluated on the real code (`*.rt.*` ops return f_inv(f(x)); it must be x), the
+The predicate is the round trip itself evaluated on the real code (`*.rt.*` ops return f_inv(f(x)); it must be x; the
+cipher-level ones are executed by ONE Serpent object per line that performs both orders and repeats its calls), the
 length law (`serpent.len.*`), and for rol/ror an independent bit-list rotation.  Only round trips are compared here, not
 the values of enc or of the components (that is C02): a change that keeps everything invertible is not a C03 failure."""
 from props.common import *
 from props.parts import c02_serpent as c2
+from props.parts import one_object as OO
 
 PREFIX = ('serpent.', 'ops.')
 ID = 'C03'
 LEAN_PROOFS = ['Proofs.C03_Serpent']
 GEN_ITEMS = ['Serpent']
 RULE = ('round-trip op lines over the C02 Serpent key/block families (every key byte length 0..32, bit-length keys, zero/all-one/'
-        'single-bit/random keys and blocks), every box on all 16 values / unit vectors / random states, IP/FP/L/Linv on all 128 unit '
+        'single-bit/random keys and blocks; ONE Serpent object per line performs f;finv(f);finv;f(finv);f again), every box on all 16 values / unit vectors / random states, IP/FP/L/Linv on all 128 unit '
         'vectors and random states, rol/ror for widths 0..70 x every amount 0..width (+ out-of-range amounts); distinct lines; '
         'non-trivial = implementation returned a value')
 TRUSTED = list(c2.TRUSTED)
@@ -27,10 +29,10 @@ def run_impl(line):
     t = line.split(); op, a = t[0], t[1:]
     if not op.startswith(('serpent.rt.', 'serpent.len.', 'ops.')): return c2.run_impl(line)
     def go():
-        if op == 'serpent.rt.encdec':
-            S = sp.Serpent(c2.impl_operand(a[0])); return hx(S.dec(S.enc(c2.impl_operand(a[1]))))
-        if op == 'serpent.rt.decenc':
-            S = sp.Serpent(c2.impl_operand(a[0])); return hx(S.enc(S.dec(c2.impl_operand(a[1]))))
+        if op in ('serpent.rt.encdec', 'serpent.rt.decenc'):
+            # ONE Serpent object per line performs the whole chain (both orders, repeated calls): props/parts/one_object.py
+            S = sp.Serpent(c2.impl_operand(a[0]))
+            return OO.chain(S, lambda: c2.impl_operand(a[1]), 'enc' if op == 'serpent.rt.encdec' else 'dec')
         if op == 'serpent.len.enc': return str(len(sp.Serpent(c2.impl_operand(a[0])).enc(c2.impl_operand(a[1]))))
         if op == 'serpent.len.dec': return str(len(sp.Serpent(c2.impl_operand(a[0])).dec(c2.impl_operand(a[1]))))
         if op == 'serpent.rt.S': return fb(sp._Sinv(int(a[0]), sp._S(int(a[0]), mkbits(a[1]))))
@@ -54,6 +56,7 @@ def check_impl(line, res):
         klen, k = c2.operand_sv(a[0]); bl, b = c2.operand_sv(a[1])
         if klen > 256 or bl != 128: return None if res == 'ERR' else bad('undefined key/block size must be rejected')
         if res == 'ERR': return bad('admissible key/block refused')
+        if OO.notes_of(res): return bad(OO.notes_of(res))
         if op.startswith('serpent.len.'):
             return None if res == '16' else bad('result is %s bytes, the block has 16' % res)
         exp = hx(b.to_bytes(16, 'little'))
